@@ -268,7 +268,7 @@ func randIP(r *gen.Rand) net.IP {
 // step applies one random building operation. Returns false to stop the sequence.
 func (s *c03State) step() bool {
 	r, m := s.r, s.m
-	switch r.Intn(34) {
+	switch r.Intn(37) {
 	case 0, 1, 2, 3: // Add
 		t := r.AttrType()
 		n := r.ValueLen(3000)
@@ -294,12 +294,18 @@ func (s *c03State) step() bool {
 		s.trail = false
 	case 4: // SetType / MessageType.AddTo
 		method, class := uint16(r.Intn(0x1000)), uint8(r.Intn(4))
+		if r.Chance(1, 6) {
+			method, class = 0, 0 // the zero MessageType is a type like any other (method 0x000, request)
+		}
 		s.op(fmt.Sprintf("SetType(%#x,%d)", method, class))
 		t := stun.NewType(stun.Method(method), stun.MessageClass(class))
-		if r.Bool() {
+		switch r.Intn(3) {
+		case 0:
 			m.SetType(t)
-		} else {
+		case 1:
 			_ = t.AddTo(m)
+		default:
+			_ = (&t).AddTo(m) // the pointer form (the setter the zero-allocation style passes to Build)
 		}
 		s.method, s.class, s.lead = method, class, 0
 	case 5: // transaction id setters
@@ -573,8 +579,17 @@ func (s *c03State) step() bool {
 		var newAttrs []shAttr
 		if r.Bool() {
 			newMethod, newClass = uint16(r.Intn(0x1000)), uint8(r.Intn(4))
-			setters = append(setters, stun.NewType(stun.Method(newMethod), stun.MessageClass(newClass)))
-			names = append(names, "type")
+			if r.Chance(1, 6) {
+				newMethod, newClass = 0, 0
+			}
+			t := stun.NewType(stun.Method(newMethod), stun.MessageClass(newClass))
+			if r.Bool() {
+				setters = append(setters, t)
+				names = append(names, "type")
+			} else {
+				setters = append(setters, &t) // Build(&t, ...): the pointer form recommended for allocation-free builds
+				names = append(names, "&type")
+			}
 		}
 		if r.Bool() {
 			newTID = r.TID()
@@ -700,6 +715,38 @@ func (s *c03State) step() bool {
 		if r.Bool() {
 			s.addBystander("the other message built meanwhile", other)
 		}
+	case 34: // calls that do not build: a refused integrity check, a fingerprint check, a lookup, an attribute walk whose
+		// callback panics. The message is what it was.
+		s.op("non-building calls (Check with a wrong key, Fingerprint.Check, Get, ForEach with a panicking callback)")
+		_ = stun.MessageIntegrity("not the key of this message").Check(m)
+		_ = stun.Fingerprint.Check(m)
+		_, _ = m.Get(stun.AttrType(r.AttrType()))
+		if len(m.Attributes) > 0 {
+			at := m.Attributes[r.Intn(len(m.Attributes))].Type
+			_, _ = safely(func() {
+				_ = m.ForEach(at, func(*stun.Message) error { panic("callback gives up") })
+			})
+			_ = m.ForEach(at, func(*stun.Message) error { return errCallback })
+		}
+	case 35: // the Type field is assigned without being written, then the message is cloned: the clone is a decode of the
+		// bytes (so is its Type); afterwards the field is written out
+		method, class := uint16(r.Intn(0x1000)), uint8(r.Intn(4))
+		s.op(fmt.Sprintf("Type=%#x/%d (field only);CloneTo;WriteType", method, class))
+		old := m.Type
+		m.Type = stun.NewType(stun.Method(method), stun.MessageClass(class))
+		clone := new(stun.Message)
+		if err := m.CloneTo(clone); err != nil {
+			s.fail("clone", "CloneTo failed: "+err.Error())
+
+			return false
+		}
+		if clone.Type != old || uint16(clone.Raw[0])<<8|uint16(clone.Raw[1]) != uint16(m.Raw[0])<<8|uint16(m.Raw[1]) {
+			s.fail("clone", fmt.Sprintf("the clone's Type field is %v; its raw bytes (a copy of the source's) encode %v", clone.Type, old))
+
+			return false
+		}
+		m.WriteType()
+		s.method, s.class, s.lead = method, class, 0
 	case 25: // retag an attribute in the struct, then Encode: the wire must carry the new type
 		if len(s.attrs) == 0 {
 			return true
